@@ -32,9 +32,38 @@ AccFillAll(a, loc, vs) == IF vs = <<>> THEN loc ELSE AccFillAll(a, AccFill(a, lo
 (* Declarative semantics: the accumulator receives what the pre elements   *)
 (* let through (as a pipeline), its results pass through post.             *)
 (***************************************************************************)
-Reach(ch, xs) == Sem(ch.pre, xs)
-ChainSem(ch, xs) == Sem(ch.post, AccCompute(ch.acc, AccFillAll(ch.acc, AccInit(ch.acc), Reach(ch, xs))))
-FlowOf(n, pairs) == [j \in 1..n |-> Val(j - 1, {}, pairs)]
+\* Context-dependent selectors (outside the FlowSem vocabulary): Filter("<key>") / Filter(callable reading the
+\* context) and RunIf("<key>", f) select the values whose context has the key; a bare value has no context.
+\* form ("str" | "fn") only tells the harness how to write the selector.
+CFilter(k, form) == [t |-> "cfilter", k |-> k, form |-> form]
+CRunIf(k, f) == [t |-> "crunif", k |-> k, f |-> f]
+HasKey(k, v) == k \in v.c
+OnHave2(st, loc, v) ==
+  CASE st.t = "cfilter" -> [loc |-> loc, em |-> IF HasKey(st.k, v) THEN <<v>> ELSE <<>>]
+    [] st.t = "crunif" -> [loc |-> loc, em |-> IF HasKey(st.k, v)
+                                                THEN (IF st.f = "drop" THEN <<>> ELSE <<ApplyMap(st.f, v)>>)
+                                                ELSE <<v>>]
+    [] OTHER -> OnHave(st, loc, v)
+\* FlowSem.Sem over the extended vocabulary
+RECURSIVE StageRun2(_, _, _, _)
+StageRun2(st, loc, xs, eof) ==
+  IF EarlyDone(st, loc) THEN [out |-> <<>>, fin |-> TRUE]
+  ELSE IF xs = <<>> THEN (IF eof THEN [out |-> OnEof(st, loc), fin |-> TRUE] ELSE [out |-> <<>>, fin |-> FALSE])
+  ELSE LET r == OnHave2(st, loc, Head(xs))
+           rest == StageRun2(st, r.loc, Tail(xs), eof)
+       IN [out |-> r.em \o rest.out, fin |-> rest.fin]
+RECURSIVE PipeRun2(_, _, _)
+PipeRun2(prog, xs, eof) ==
+  IF prog = <<>> THEN [out |-> xs, fin |-> eof]
+  ELSE LET r == StageRun2(Head(prog), InitLoc(Head(prog)), xs, eof) IN PipeRun2(Tail(prog), r.out, r.fin)
+Sem2(prog, xs) == PipeRun2(prog, xs, TRUE).out
+
+Reach(ch, xs) == Sem2(ch.pre, xs)
+ChainSem(ch, xs) == Sem2(ch.post, AccCompute(ch.acc, AccFillAll(ch.acc, AccInit(ch.acc), Reach(ch, xs))))
+\* flows: "bare" data, "pairs" (data, {}) and "ctx": pairs whose contexts differ (odd values carry the key "odd")
+FlowOf(n, fk) == [j \in 1..n |-> CASE fk = "bare" -> Val(j - 1, {}, FALSE)
+                                    [] fk = "pairs" -> Val(j - 1, {}, TRUE)
+                                    [] fk = "ctx" -> Val(j - 1, IF (j - 1) % 2 = 1 THEN {"odd"} ELSE {}, TRUE)]
 
 (***************************************************************************)
 (* Fill side of one pre element: [loc, em, stop].                          *)
@@ -49,6 +78,9 @@ FillIntoStep(st, loc, v) ==
     [] st.t = "filter" -> [loc |-> loc, em |-> IF Pred(st.p, v) THEN <<v>> ELSE <<>>, stop |-> FALSE]
     [] st.t = "runif" -> [loc |-> loc, stop |-> FALSE,
                           em |-> IF Pred(st.p, v) THEN (IF st.f = "drop" THEN <<>> ELSE <<ApplyMap(st.f, v)>>) ELSE <<v>>]
+    [] st.t = "cfilter" -> [loc |-> loc, em |-> IF HasKey(st.k, v) THEN <<v>> ELSE <<>>, stop |-> FALSE]
+    [] st.t = "crunif" -> [loc |-> loc, stop |-> FALSE,
+                           em |-> IF HasKey(st.k, v) THEN (IF st.f = "drop" THEN <<>> ELSE <<ApplyMap(st.f, v)>>) ELSE <<v>>]
     [] st.t = "slice" ->
          LET nn == IF loc.idx > loc.nxt THEN NextIdx(st, loc.nxt) ELSE loc.nxt IN
          IF nn = None THEN [loc |-> loc, em |-> <<>>, stop |-> TRUE]
@@ -72,7 +104,7 @@ FeedVals(pre, locs, i, vs) ==
   IF vs = <<>> THEN [locs |-> locs, reach |-> <<>>]
   ELSE IF i > Len(pre) THEN [locs |-> locs, reach |-> vs]
   ELSE IF EarlyDone(pre[i], locs[i]) THEN [locs |-> locs, reach |-> <<>>]
-  ELSE LET r == OnHave(pre[i], locs[i], Head(vs))
+  ELSE LET r == OnHave2(pre[i], locs[i], Head(vs))
            down == FeedVals(pre, [locs EXCEPT ![i] = r.loc], i + 1, r.em)
            rest == FeedVals(pre, down.locs, i, Tail(vs))
        IN [locs |-> rest.locs, reach |-> down.reach \o rest.reach]
